@@ -22,9 +22,22 @@ import nlgen
 KINDS = ['gdbl', 'gint', 'sol', 'basis', 'iis', 'lazy']
 LEANKIND = {'gdbl': 'generic', 'gint': 'generic', 'sol': 'sol', 'basis': 'basis', 'iis': 'iis', 'lazy': 'lazy'}
 CG_LIN, CG_QUAD, CG_GEN = 3, 4, 6
+# order of the twelve PostsolveGenericDbl calls in FlatBackend::GetSensRanges, and the .sol suffix each ends in (name, kind)
+SENS_FIELDS = ['varlbhi', 'varlblo', 'varubhi', 'varublo', 'varobjhi', 'varobjlo', 'conlbhi', 'conlblo', 'conubhi', 'conublo', 'conrhshi', 'conrhslo']
+SENS_SUFFIX = {'varlbhi': ('senslbhi', 0), 'varlblo': ('senslblo', 0), 'varubhi': ('sensubhi', 0), 'varublo': ('sensublo', 0), 'varobjhi': ('sensobjhi', 0),
+               'varobjlo': ('sensobjlo', 0), 'conlbhi': ('senslbhi', 1), 'conlblo': ('senslblo', 1), 'conubhi': ('sensubhi', 1), 'conublo': ('sensublo', 1),
+               'conrhshi': ('sensrhshi', 1), 'conrhslo': ('sensrhslo', 1)}
 EXTRA_ACCEPT = ['AbsConstraint', 'MaxConstraint', 'MinConstraint', 'AndConstraint', 'OrConstraint', 'NotConstraint',
                 'IndicatorLinConLE', 'IndicatorLinConEQ', 'IndicatorLinConGE', 'CondLinConLE', 'CondLinConGE', 'CondLinConEQ']
 QUADS = ['QuadConRange', 'QuadConLE', 'QuadConEQ', 'QuadConGE']
+
+
+ALL_MODEL_ARMS = (['entry:%s:%s:%s' % (e, d, k) for e in ('copy', 'm2m', 'r2s') for d in ('pre', 'post') for k in ('generic', 'sol', 'basis', 'iis', 'lazy')] +
+                  ['setNum:cur0:v0', 'setNum:cur0:assign', 'setNum:replace-larger', 'setNum:keep:v0', 'setNum:keep:not-larger',
+                   'revBasis:low->upp', 'revBasis:upp->low', 'revBasis:other', 'iisVal:slack0->row', 'iisVal:low->upp', 'iisVal:upp->low', 'iisVal:fix', 'iisVal:raise',
+                   'lowerSlack:linear', 'lowerSlack:quadratic', 'r2s:pre:iis:noop', 'r2s:post:lazy:noop', 'm2m:many-sources', 'm2m:many-targets', 'copy:range', 'copy:single',
+                   'load:zero-filled', 'load:exact', 'load:cut-off', 'run:post:raise',
+                   'clamp:below-lb', 'clamp:above-ub', 'clamp:inside', 'clamp:inside-no-ub', 'clamp:inside-no-lb', 'clamp:free'])
 
 
 def fr(x):
@@ -109,18 +122,76 @@ def gen_model(rng, feat):
                 i = rng.below(n)
                 shared_abs = ('abs', ('-', ('v', i), ('n', rng.rint(1, 3))))
             m.con(None, a + 20, lin, nl=shared_abs)
+    # round 3: other flattening paths (each creates its own functional constraints / auxiliary items under the constraint's autolink scope)
+    ints = [j for j in range(n) if m.vars[j]['int'] and m.vars[j]['lb'] is not None and m.vars[j]['ub'] is not None]
+    bounded = [j for j in range(n) if m.vars[j]['lb'] is not None and m.vars[j]['ub'] is not None]
+    if bounded and rng.chance(1, 2):
+        for _ in range(rng.rint(1, 3)):
+            t = rng.choice(['count', 'numberof', 'ifthen', 'pl', 'div', 'pow2', 'explog', 'min', 'atleast', 'eqenc', 'eqenc'])
+            lin = gen_lin(rng, n, used, 1, 3)
+            if lin is None:
+                continue
+            i, j = rng.choice(bounded), rng.choice(bounded)
+            k1, k2 = rng.rint(0, 3), rng.rint(0, 3)
+            a = F(rng.rint(-6, 6))
+            nl = None
+            if t == 'count':
+                nl = ('count', [('le', ('v', i), ('n', k1)), ('ge', ('v', j), ('n', k2)), ('eq', ('v', i), ('n', k2))])
+            elif t == 'numberof':
+                nl = ('numberof', ('n', k1), [('v', i), ('v', j)])
+            elif t == 'ifthen':
+                nl = ('if', ('le', ('v', i), ('n', k1)), ('v', j), ('n', k2))
+            elif t == 'pl':
+                nl = ('pl', [F(-1), F(1), F(2)], [F(0), F(2)], i)
+            elif t == 'div':
+                nl = ('/', ('v', i), ('+', ('abs', ('v', j)), ('n', 1 + k1)))
+            elif t == 'pow2':
+                nl = ('pow', ('v', i), ('n', 2))
+            elif t == 'explog':
+                nl = ('log', ('+', ('exp', ('v', i)), ('n', 1)))
+            elif t == 'min':
+                nl = ('min', [('v', i), ('v', j), ('n', k1)])
+            elif t == 'atleast':
+                m.lcon(('atleast', ('n', 1), ('count', [('le', ('v', i), ('n', k1)), ('ge', ('v', j), ('n', k2))])))
+                feat['x_atleast'] = feat.get('x_atleast', 0) + 1
+                continue
+            elif t == 'eqenc':
+                if not ints:
+                    continue
+                v = rng.choice(ints)
+                lbv = int(m.vars[v]['lb'])
+                ks = [lbv + d for d in range(min(4, int(m.vars[v]['ub']) - lbv + 1))]
+                terms = [('if', ('eq', ('v', v), ('n', kk)), ('n', 1 + d), ('n', 0)) for d, kk in enumerate(ks)]
+                nl = ('sum', terms) if len(terms) >= 3 else (('+', terms[0], terms[1]) if len(terms) == 2 else terms[0])
+            feat['x_' + t] = feat.get('x_' + t, 0) + 1
+            if rng.chance(1, 2):
+                m.con(None, a + 40, lin, nl=nl)
+            else:
+                m.con(a - 40, None, lin, nl=nl)
     # functional subexpressions shared by several constraints (each later use is a map hit in the converter)
     m.atoms = {}
+    m.atom_dv = set()
     if rng.chance(1, 2):
         for _ in range(rng.rint(1, 2)):
-            fn = rng.choice(['sin', 'cos', 'exp', 'abs', 'max'])
+            fn = rng.choice(['sin', 'cos', 'exp', 'abs', 'max', 'sin', 'abs', 'max'] + list(FUNC_DOMAIN))
             i = rng.below(n)
+            if fn in FUNC_DOMAIN:          # a variable of its own with bounds inside the function's domain
+                lo, hi = FUNC_DOMAIN[fn]
+                i = m.var(lo, hi, False)
+                n = len(m.vars)
             if fn == 'max':
                 j = (i + 1 + rng.below(n - 1)) % n
                 key, expr = ('max', (i, j)), ('max', [('v', i), ('v', j)])
             else:
                 key, expr = (fn, (i,)), (fn, ('v', i))
+            if key in m.atoms:
+                continue
             users = m.atoms.setdefault(key, [])
+            if rng.chance(1, 3):           # through an AMPL defined variable (NL common expression)
+                m.defvars.append({'lin': {}, 'nl': expr})
+                expr = ('dv', len(m.defvars) - 1)
+                m.atom_dv.add(key)
+                feat['shared_via_defvar'] = feat.get('shared_via_defvar', 0) + 1
             for _ in range(rng.rint(2, 3)):
                 lin = gen_lin(rng, n, used, 1, 3)
                 if lin is None:
@@ -133,6 +204,35 @@ def gen_model(rng, feat):
                 else:
                     m.con(a - 30, None, lin, nl=nl)
                 feat['shared_' + fn] = feat.get('shared_' + fn, 0) + 1
+    # logical constraints through the other logical visitors
+    if bounded and rng.chance(1, 4):
+        for _ in range(rng.rint(1, 2)):
+            i, j = rng.choice(bounded), rng.choice(bounded)
+            k1, k2 = rng.rint(0, 3), rng.rint(0, 3)
+            t = rng.choice(['not', 'iff', 'exists', 'forall', 'ne', 'ltgt', 'alldiff'])
+            a_, b_ = ('le', ('v', i), ('n', k1)), ('ge', ('v', j), ('n', k2))
+            if t == 'not':
+                m.lcon(('not', ('and', a_, b_)))
+            elif t == 'iff':
+                m.lcon(('iff', a_, b_))
+            elif t == 'exists':
+                m.lcon(('exists', [a_, b_, ('eq', ('v', i), ('n', k2))]))
+            elif t == 'forall':
+                m.lcon(('forall', [('or', a_, b_), ('or', b_, ('le', ('v', j), ('n', 9))), ('or', a_, ('ge', ('v', i), ('n', -9)))]))
+            elif t == 'ne':
+                if not ints:
+                    continue
+                m.lcon(('or', ('ne', ('v', rng.choice(ints)), ('n', k1)), a_))
+            elif t == 'ltgt':
+                if not ints:
+                    continue
+                v_ = rng.choice(ints)
+                m.lcon(('or', ('lt', ('v', v_), ('n', k1)), ('gt', ('v', v_), ('n', k1 + 1))))
+            elif t == 'alldiff':
+                if len(ints) < 2:
+                    continue
+                m.lcon(('alldiff', [('v', t_) for t_ in (ints + ints)[:3]] if len(set(ints)) >= 3 else [('v', ints[0]), ('v', ints[1])]))
+            feat['x_logical_' + t] = feat.get('x_logical_' + t, 0) + 1
     nl_ = rng.rint(0, 2) if rng.chance(1, 3) else 0
     for _ in range(nl_):
         i, j = rng.below(n), rng.below(n)
@@ -158,7 +258,13 @@ def gen_model(rng, feat):
     return m
 
 
-FUNC_TYPE = {'sin': 'SinConstraint', 'cos': 'CosConstraint', 'exp': 'ExpConstraint', 'abs': 'AbsConstraint', 'max': 'MaxConstraint'}
+FUNC_TYPE = {'sin': 'SinConstraint', 'cos': 'CosConstraint', 'exp': 'ExpConstraint', 'abs': 'AbsConstraint', 'max': 'MaxConstraint',
+             'tan': 'TanConstraint', 'sinh': 'SinhConstraint', 'cosh': 'CoshConstraint', 'tanh': 'TanhConstraint', 'asin': 'AsinConstraint',
+             'acos': 'AcosConstraint', 'atan': 'AtanConstraint', 'asinh': 'AsinhConstraint', 'acosh': 'AcoshConstraint', 'atanh': 'AtanhConstraint',
+             'log': 'LogConstraint'}
+# functions used on a variable of their own whose bounds lie inside the domain
+FUNC_DOMAIN = {'tan': (-1, 1), 'sinh': (-2, 2), 'cosh': (-2, 2), 'tanh': (-2, 2), 'asin': (F(-1, 2), F(1, 2)), 'acos': (F(-1, 2), F(1, 2)),
+               'atan': (-2, 2), 'asinh': (-2, 2), 'acosh': (1, 3), 'atanh': (F(-1, 2), F(1, 2)), 'log': (1, 4)}
 
 
 def gen_accept(rng, feat, m=None):
@@ -377,6 +483,23 @@ def flows_from_run(r, script, calls, sol):
             for g, v in (e.get('solver_con_g') or {}).items():
                 inp['dest_cons(%d)' % int(g)] = vec_int(v)
             fl.append(Flow('iis_out', 'post', 'iis', inp, {'src_vars()': vec_int(e['var']), 'src_cons()': vec_int(e['con'])}))
+        elif ev in ('ray_out', 'dray_out'):
+            inp = {'dest_vars()': vec_dbl(e['solver'])} if ev == 'ray_out' else {'dest_cons(3)': vec_dbl(e['solver'])}
+            fl.append(Flow(ev, 'post', 'sol', inp, mv_from_log(e['post'], True, 'src')))
+        elif ev == 'sens_query':
+            # twelve generic postsolves in a row; each result is observed through its .sol suffix (non-zero entries only)
+            sufs = {(sf['name'], sf['kind'] & 3): sf['vals'] for sf in (sol or {}).get('suffixes', [])}
+            ex = script.get('extra') or {}
+            for fld in SENS_FIELDS:
+                isvar = fld.startswith('var')
+                v = ex.get('sens_' + fld)
+                inp = {} if v is None else ({'dest_vars()': [F(t) for t in v]} if isvar else {'dest_cons(3)': [F(t) for t in v]})
+                nm, kd = SENS_SUFFIX[fld]
+                got = sufs.get((nm, kd), {})
+                f_ = Flow('sens_' + fld, 'post', 'gdbl', inp, None)
+                f_.suffix_vals = {int(i): F(t) for i, t in got.items()}
+                f_.suffix_node = 'src_vars()' if isvar else 'src_cons()'
+                fl.append(f_)
         elif ev == 'modelsuffix':
             src = mv_from_log(e['src'], False, 'src')
             fl.append(Flow('modelsuffix_' + e['name'], 'pre', 'gint', {k_: v for k_, v in src.items()}, mv_from_log(e['pre'], False, 'dest')))
@@ -385,14 +508,18 @@ def flows_from_run(r, script, calls, sol):
 
 # --------------------------------------------------------------------------- the check
 def run(ck):
-    proof_ok, failing = ck.proof_stage('MpVerif.C04.Props', 'MpVerif/C04/Props.lean', 'C04_', ['MpVerif/C04/*.lean'], expect_min=24)
+    proof_ok, failing = ck.proof_stage('MpVerif.C04.Props', 'MpVerif/C04/Props.lean', 'C04_', ['MpVerif/C04/*.lean'], expect_min=25)
     ck.log('proof stage: ok=%s failing=%s' % (proof_ok, failing[:8]))
     if ck.tier == 'thorough' and proof_ok:
         bad = ck.leanchecker(['MpVerif.C04.Props'])
         if bad:
             failing += ['leanchecker rejected %s' % m for m in bad]
             proof_ok = False
-    exe = recsolver.build(ck)
+    cov = os.environ.get('VERIF_COVERAGE')
+    if cov:
+        exe, covdir = coverage_build(ck)
+    else:
+        exe = recsolver.build(ck)
     drv = ck.driver('drv_c04')
     ncases = 120 if ck.tier == 'quick' else 1800
     st = Stats()
@@ -420,7 +547,9 @@ def run(ck):
     for c in cases:
         certificates(ck, c, st)
         certificates_shared(ck, c, st)
-    if not os.environ.get('C04_NO_SANITIZER'):      # (used when trying hand mutants: saves building the ASan driver of the mutated tree)
+    if cov:
+        coverage_report(ck, covdir, os.environ.get('VERIF_COVERAGE_LABEL', 'last'))
+    elif not os.environ.get('C04_NO_SANITIZER'):      # (used when trying hand mutants: saves building the ASan driver of the mutated tree)
         sanitizer_stream(ck, cases, st)
     verdicts(ck, cases, st, proof_ok, failing)
 
@@ -433,6 +562,8 @@ class Stats:
         self.n_values = 0
         self.link_types = {}
         self.oracle = {}
+        self.flowfam = {}
+        self.arms = {}
 
 
 def gen_case(rng, d, feat, exe):
@@ -452,6 +583,18 @@ def gen_case(rng, d, feat, exe):
     c.options.append('alg:iisfind=1')
     ws = rng.choice([0, 1, 1, 2])
     c.options.append('alg:start=%d' % ws)
+    c.sens = rng.chance(1, 3)
+    if c.sens:
+        c.options.append('alg:sens=1')
+        feat['opt_sens'] = feat.get('opt_sens', 0) + 1
+    c.writegraph = rng.chance(1, 4)
+    if len(m.objs) >= 1 and rng.chance(1, 4):
+        k = rng.rint(0, len(m.objs))
+        c.options.append('obj:no=%d' % k)
+        feat['opt_objno_%d' % k] = feat.get('opt_objno_%d' % k, 0) + 1
+    elif len(m.objs) == 2 and rng.chance(1, 2):
+        c.options.append('obj:multi=1')
+        feat['opt_multiobj'] = feat.get('opt_multiobj', 0) + 1
     n = len(m.vars)
     # NL-side inputs for the presolve direction
     if rng.chance(1, 2):
@@ -475,6 +618,19 @@ def gen_case(rng, d, feat, exe):
     if rng.chance(1, 2) and m.cons:
         m.suffixes.append({'name': 'lazy', 'kind': 1, 'float': False, 'vals': {i: rng.choice([1, 2, 3, -1]) for i in range(len(m.cons)) if rng.chance(1, 2)}})
         feat['nl_lazy'] = feat.get('nl_lazy', 0) + 1
+    if n >= 3 and rng.chance(1, 6):
+        grp = [j for j in range(n)][:rng.rint(2, 3)]
+        sn = rng.choice([1, -1])
+        m.suffixes.append({'name': 'sosno', 'kind': 0, 'float': False, 'vals': {j: sn for j in grp}})
+        m.suffixes.append({'name': 'ref', 'kind': 0, 'float': True, 'vals': {j: F(1 + k_) for k_, j in enumerate(grp)}})
+        if rng.chance(1, 2):
+            c.accept += ['SOS1Constraint', 'SOS2Constraint']
+        feat['nl_sos'] = feat.get('nl_sos', 0) + 1
+    if rng.chance(1, 3):
+        m.suffixes.append({'name': 'c04int', 'kind': 0, 'float': False, 'vals': {j: rng.rint(-3, 9) for j in range(n) if rng.chance(2, 3)}})
+        if m.cons:
+            m.suffixes.append({'name': 'c04int', 'kind': 1, 'float': False, 'vals': {i: rng.rint(-3, 9) for i in range(len(m.cons)) if rng.chance(2, 3)}})
+        feat['nl_c04int'] = feat.get('nl_c04int', 0) + 1
     if m.atoms and m.cons and rng.chance(2, 3):
         m.suffixes.append({'name': 'funcpieces', 'kind': 1, 'float': False, 'vals': {i: rng.rint(1, 9) for i in range(len(m.cons)) if rng.chance(2, 3)}})
         feat['nl_funcpieces'] = feat.get('nl_funcpieces', 0) + 1
@@ -539,6 +695,17 @@ def gen_answer(c, st):
                 s['iisvar'].append(0)
             s['iisvar'][sl] = rng.choice([4, 5, 8])
             feat['iis_bad_status_on_slack'] = feat.get('iis_bad_status_on_slack', 0) + 1
+    extra = {}
+    if getattr(c, 'sens', False):
+        for fld in SENS_FIELDS:
+            if rng.chance(2, 3):
+                extra['sens_' + fld] = rvec_dbl(rng, rlen(rng, nv if fld.startswith('var') else nlin, feat, 'sens'))
+    if c.code == 300 and rng.chance(2, 3):
+        extra['ray'] = rvec_dbl(rng, rlen(rng, nv, feat, 'ray'))
+    if c.code == 200 and rng.chance(1, 2):
+        extra['dray'] = rvec_dbl(rng, rlen(rng, nlin, feat, 'dray'))
+    if extra:
+        s['extra'] = extra
     c.script = s
     # scripted sequence of presolver calls (all kinds, both directions)
     n_src_v = len(c.model.vars)
@@ -639,10 +806,10 @@ def execute_case(ck, exe, c, st):
     s = c.script
     recsolver.write_script(sfile, code=s.get('code', 0), x=s.get('x'), pi=s.get('pi'), piq=s.get('piq'), obj=s.get('obj'),
                            varstt=s.get('varstt'), constt=s.get('constt'), iisvar=s.get('iisvar'), iiscon=s.get('iiscon'),
-                           iiscong=s.get('iiscong'))
+                           iiscong=s.get('iiscong'), extra=s.get('extra'))
     cfile = c.stub + '.calls'
     write_calls(cfile, c.calls)
-    r = recsolver.run(exe, c.stub, options=c.options, accept=c.accept, script=sfile, env=env_of(c, cfile), timeout=120)
+    r = recsolver.run(exe, c.stub, options=c.options, accept=c.accept, script=sfile, env=env_of(c, cfile), timeout=120, graph=getattr(c, 'writegraph', False))
     st.n_runs += 1
     c.r = r
     lg = [e for e in r['log'] if e['ev'] == 'linkgraph']
@@ -661,6 +828,27 @@ def execute_case(ck, exe, c, st):
     c.bounds = (lbs, ubs)
     c.sol = recsolver.parse_sol(r['sol'])
     c.flows = flows_from_run(r, c.script, c.calls, c.sol)
+    for f in c.flows:
+        if getattr(f, 'suffix_vals', None) is not None:
+            ln = len(c.model.vars) if f.suffix_node == 'src_vars()' else len(c.model.cons) + len(c.model.lcons)
+            f.results = {f.suffix_node: [f.suffix_vals.get(i, F(0)) for i in range(ln)]}
+    # exported link entries (cvt:writegraph) vs the final link-range list
+    if r.get('graph'):
+        exp = []
+        for l in r['graph']:
+            if '"link_index"' in l:
+                try:
+                    o = json.loads(l)
+                except Exception:
+                    continue
+
+                def rng_(d):
+                    (nm, v), = d.items()
+                    return [nm, v, v + 1] if isinstance(v, int) else [nm, v[0], v[1] + 1]
+                exp.append((o['link_type'], [rng_(d) for d in o['src_nodes']], [rng_(d) for d in o['dest_nodes']]))
+        fin = [(e['t'], e['s'], e['d']) for e in c.lg['entries']]
+        key = 'export_equals_final' if exp == fin else 'export_differs_from_final'
+        st.feat[key] = st.feat.get(key, 0) + 1
     # the final solution transfer (not logged; observed through the .sol file)
     x, pi, piq = s.get('x'), s.get('pi'), s.get('piq')
     inputs = {'dest_vars()': [F(t) for t in (x or [])]}
@@ -685,8 +873,8 @@ def sol_numbers(lines):
 
 def model_replay(ck, drv, cases, st):
     """feed every real graph and every real transfer to the Lean driver; attach model results to the cases"""
-    ops = []
-    plan = []      # (case, what, payload)
+    ops = ['arms on']
+    plan = [(None, 'setup', None)]      # (case, what, payload)
     for c in cases:
         if c.problem:
             continue
@@ -737,6 +925,8 @@ def model_replay(ck, drv, cases, st):
             clamp = nid('dest_vars()') if f.clamp else None
             ops.append(call_line(f.dir, f.kind, inputs, outs, clamp))
             plan.append((c, 'flow', f))
+    ops.append('arms report')
+    plan.append((None, 'arms', None))
     opf = os.path.join(BUILD, 'c04', 'ops.txt')
     open(opf, 'w').write('\n'.join(ops) + '\n')
     with open(opf) as fi:
@@ -749,6 +939,12 @@ def model_replay(ck, drv, cases, st):
         c.traces = {}
         c.bad_ops = []
     for (c, what, payload), line in zip(plan, outl):
+        if c is None:
+            if what == 'arms' and line.startswith('arms'):
+                for kv in line.split()[1:]:
+                    k, _, v = kv.rpartition('=')
+                    st.arms[k] = st.arms.get(k, 0) + int(v)
+            continue
         if line == 'bad-op':
             c.bad_ops.append(str(payload)[:200])
         if what == 'wf':
@@ -1047,9 +1243,13 @@ def oracle(ck, c, st):
                 else:
                     bad('post:%s:raises' % f.kind, 'postsolve raised unexpectedly: %s' % f.results.get('err', '')[:120], f)
                 continue
-            rv = f.results.get('src_vars()', [])
-            rc_ = f.results.get('src_cons()', [])
-            if len(rv) != n:
+            rv = f.results.get('src_vars()')
+            rc_ = f.results.get('src_cons()')
+            if rc_ is None:
+                ec = {}
+            if rv is None:
+                pass
+            elif len(rv) != n:
                 bad('post:%s:var-count' % f.kind, '%d values returned for %d original variables' % (len(rv), n), f)
             elif rv != ev:
                 j = [a != b for a, b in zip(rv, ev)].index(True)
@@ -1150,9 +1350,30 @@ def shared_items_of(c):
         return m.shared
     out = []
     inv = {i: k for k, i in enumerate(m.con_order)}
+
+    def contains(e, atom):
+        if not isinstance(e, tuple):
+            return False
+        if e == atom:
+            return True
+        if e[0] == 'dv':
+            return contains(m.defvars[e[1]].get('nl'), atom)
+        for a in e[1:]:
+            if isinstance(a, list):
+                if any(contains(x, atom) for x in a):
+                    return True
+            elif contains(a, atom):
+                return True
+        return False
     for (fn, args), users in (getattr(m, 'atoms', None) or {}).items():
+        atom = ('max', [('v', args[0]), ('v', args[1])]) if fn == 'max' else (fn, ('v', args[0]))
+        # every constraint whose expression tree contains the expression is a user (also through other families)
+        users = sorted(set(users) | set(i for i, cn in enumerate(m.cons) if cn['nl'] is not None and contains(cn['nl'], atom)))
+        if any(contains(l['expr'], atom) for l in m.lcons) or any(o['nl'] is not None and contains(o['nl'], atom) for o in m.objs):
+            continue        # also used by a logical constraint / objective: not handled by the oracle
         if users:
-            out.append({'type': FUNC_TYPE[fn], 'args': [m.pos[a] for a in args], 'users': sorted(inv[u] for u in users)})
+            out.append({'type': FUNC_TYPE[fn], 'args': [m.pos[a] for a in args], 'users': sorted(inv[u] for u in users),
+                        'defvar': (fn, args) in getattr(m, 'atom_dv', set())})
     return out
 
 
@@ -1201,11 +1422,13 @@ def oracle_shared(ck, c, st):
                 v = getz(f.inputs.get('dest_cons(%d)' % CG_GEN), r)
                 if v == 0:
                     continue
-                rc_ = f.results.get('src_cons()', [])
+                rc_ = f.results.get('src_cons()')
+                if rc_ is None:
+                    continue
                 for u in it['users']:
                     got = getz(rc_, u)
                     if got == 0 or got < v:
-                        bad('shared:post:%s:user-not-reached' % f.kind,
+                        bad('shared:post:%s:user-not-reached%s' % (f.kind, ':defvar' if it.get('defvar') else ''),
                             'the solver reports %s for the %s on variable(s) %s (general constraint %d); original constraint %d, which contains that expression, received %s (users: %s; max among non-zero demands a non-zero value >= %s)'
                             % (v, it['type'], it['args'], r, u, got, it['users'], v), f)
                     else:
@@ -1217,7 +1440,7 @@ def oracle_shared(ck, c, st):
                 want = maxnz([getz(C0, u) for u in it['users']])
                 got = getz(f.results.get('dest_cons(%d)' % CG_GEN), r)
                 if got != want:
-                    bad('shared:pre:%s:not-max-over-users' % f.kind,
+                    bad('shared:pre:%s:not-max-over-users%s' % (f.kind, ':defvar' if it.get('defvar') else ''),
                         'the %s on variable(s) %s (general constraint %d) received %s; the values given for its users %s are %s (max among non-zero = %s)'
                         % (it['type'], it['args'], r, got, it['users'], [str(getz(C0, u)) for u in it['users']], want), f)
                 else:
@@ -1235,7 +1458,7 @@ def certificates_shared(ck, c, st):
             want = sorted('%d:%d' % (sc, u) for u in it['users'])
             got = sorted(line.split()[2:]) if line.startswith('sources ok') else None
             if got != want:
-                ck.add_violation('cert:shared:pre:sources', 'general constraint %d (%s %s): the entries feeding it in a presolve run come from %s, the users are %s'
+                ck.add_violation('cert:shared:pre:sources' + (':defvar' if it.get('defvar') else ''), 'general constraint %d (%s %s): the entries feeding it in a presolve run come from %s, the users are %s'
                                  % (r, it['type'], it['args'], line, want), replay_obj(c), found_input=getattr(c, 'oracle_failed', False))
             else:
                 st.oracle['cert_shared_sources'] = st.oracle.get('cert_shared_sources', 0) + 1
@@ -1243,7 +1466,7 @@ def certificates_shared(ck, c, st):
             k, u = extra
             want = 'reach 1 init:%d:%d' % (dcg, r)
             if line != want:
-                ck.add_violation('cert:shared:post:reach', 'user constraint %d of general constraint %d (%s %s), kind %s: certificate "%s", demanded "%s"'
+                ck.add_violation('cert:shared:post:reach' + (':defvar' if it.get('defvar') else ''), 'user constraint %d of general constraint %d (%s %s), kind %s: certificate "%s", demanded "%s"'
                                  % (u, r, it['type'], it['args'], k, line, want), replay_obj(c), found_input=getattr(c, 'oracle_failed', False))
             else:
                 st.oracle['cert_shared_reach'] = st.oracle.get('cert_shared_reach', 0) + 1
@@ -1403,6 +1626,10 @@ def case_from_replay(obj, d):
     c.ismip = obj.get('ismip', 0)
     c.code = obj['script'].get('code', 0)
     c.script = {k: ([F(t) for t in v] if isinstance(v, list) else v) for k, v in obj['script'].items()}
+    if c.script.get('extra'):
+        c.script['extra'] = {k: [F(t) for t in v] for k, v in c.script['extra'].items()}
+    c.sens = 'alg:sens=1' in c.options
+    c.writegraph = bool(obj.get('writegraph'))
     if c.script.get('iiscong'):
         c.script['iiscong'] = {int(g): [F(t) for t in v] for g, v in c.script['iiscong'].items()}
     c.calls = []
@@ -1445,7 +1672,7 @@ def replay_obj(c):
     o = {'nl': open(c.stub + '.nl').read(), 'accept': c.accept, 'options': c.options, 'ismip': c.ismip,
          'script': {k: sv(v) for k, v in getattr(c, 'script', {}).items()}, 'calls': calls,
          'n_vars': len(c.model.vars), 'n_cons': len(c.model.cons), 'n_lcons': len(c.model.lcons), 'n_objs': len(c.model.objs),
-         'nl_cons': nl_cons_of(c), 'shared': shared_items_of(c),
+         'nl_cons': nl_cons_of(c), 'shared': shared_items_of(c), 'writegraph': bool(getattr(c, 'writegraph', False)),
          'how': 'save this object as a file and run ./check C04 --replay <file>'}
     for ext in ('col', 'row'):
         if os.path.exists(c.stub + '.' + ext):
@@ -1510,6 +1737,12 @@ def verdicts(ck, cases, st, proof_ok, failing):
             else:
                 n_ok += 1
                 st.n_values += sum(len(v) for v in f.results.values() if isinstance(v, list))
+                fam = f.name.rstrip('0123456789').split('_')[0] if not f.name.startswith(('basis', 'iis', 'ray', 'dray', 'mipstart')) else f.name
+                fam = '%s:%s:%s' % (fam, f.dir, f.kind)
+                nz = any(t != 0 for v in f.results.values() if isinstance(v, list) for t in v)
+                st.flowfam[fam] = st.flowfam.get(fam, 0) + 1
+                if nz:
+                    st.flowfam[fam + ':nonzero'] = st.flowfam.get(fam + ':nonzero', 0) + 1
         # the final solution transfer, observed through the .sol file
         fm = getattr(c.final_flow, 'model', None)
         if isinstance(fm, dict) and c.sol is not None:
@@ -1534,7 +1767,17 @@ def verdicts(ck, cases, st, proof_ok, failing):
     ck.cov['link_types'] = st.link_types
     ck.cov['real_runs'] = st.n_runs
     ck.cov['values_compared'] = st.n_values
+    try:
+        cj = json.load(open(os.path.join(VERIF, 'design_notes', 'coverage', 'C04.json')))
+        ck.cov['anchor_line_cov'] = cj['anchor_line_cov']
+        ck.cov['anchor_branch_cov'] = cj['anchor_branch_cov']
+        ck.cov['anchor_cov_note'] = 'as measured in the last VERIF_COVERAGE=1 run (design_notes/coverage/C04.md); mechanism code: line %s%% branch %s%%' % (cj['mechanism_line_cov'], cj['mechanism_branch_cov'])
+    except Exception:
+        pass
     ck.cov['oracle'] = dict(sorted(st.oracle.items()))
+    ck.cov['model_arms_taken'] = dict(sorted(st.arms.items()))
+    ck.cov['model_arms_never_taken'] = [a for a in ALL_MODEL_ARMS if not st.arms.get(a)]
+    ck.cov['transfers_by_family'] = dict(sorted(st.flowfam.items()))
     ck.cov['cases_skipped'] = {k: len(v) for k, v in problems.items()}
     distinct = set()
     for c in cases:
@@ -1589,3 +1832,155 @@ def replay(ck, path):
         print('   model  :', {inv.get(k, k): [str(t) for t in v] for k, v in m.items()} if isinstance(m, dict) else m)
     verdicts(ck, [c], st, True, [])
     return ck.finish()
+
+
+# --------------------------------------------------------------------------- coverage mode (VERIF_COVERAGE=1)
+ANCHOR_FILES = ['include/mp/valcvt.h', 'include/mp/valcvt-base.h', 'include/mp/valcvt-node.h', 'include/mp/valcvt-link.h',
+                'include/mp/flat/redef/std/range_con.h', 'include/mp/flat/converter.h', 'include/mp/flat/problem_flattener.h',
+                'include/mp/flat/constr_keeper.h', 'include/mp/flat/backend_flat.h', 'include/mp/backend-std.h', 'include/mp/backend-mip.h',
+                'include/mp/backend-with-valcvt.h', 'include/mp/model-mgr-with-pb.h']
+# functions of anchors.mechanism (substring of the demangled name); files given in full: every function is listed
+MECH_FUNCS = ['ConvertVars', 'AddAllUnbridged', 'AutoLinkScope', 'Many2ManyLink', 'One2ManyLink', 'Many2OneLink', 'CopyLink', 'ValueNode::',
+              'RangeCon2Slack', 'RangeConstraintConverter', 'RunPresolve', 'RunPostsolve', 'CleanUpValueNodes', 'ValuePresolver', 'ValueMap', 'ModelValues',
+              'AutoLink', 'MapFind', 'FlatBackend', 'PostsolveSolution', 'PresolveSolution']
+MECH_FILES_FULL = ['valcvt.h', 'valcvt-base.h', 'valcvt-node.h', 'valcvt-link.h', 'range_con.h', 'backend_flat.h', 'backend-with-valcvt.h']
+
+
+def coverage_build(ck):
+    """recsolver with gcov instrumentation of its own four TUs (they instantiate all anchored header code);
+    the mp library objects are the normal cached ones"""
+    cdir = os.path.join(BUILD, 'c04cov')
+    os.makedirs(cdir, exist_ok=True)
+    inc = ['-I' + os.path.join(REPO, 'include'), '-I' + os.path.join(REPO, 'src'), '-I' + os.path.join(VERIF, 'harness'), '-I' + recsolver.RDIR]
+    defs = ['-DNDEBUG', '-DMP_DATE=20240320', '-DMP_SYSINFO="Linux x86_64"', '-DMP_USE_ATOMIC', '-DMP_USE_HASH', '-DMP_USE_UNIQUE_PTR', '-DAMPL_MP_VERIF']
+    srcs = ['recmain.cc', 'recmodelmgr.cc', 'recmodelapi.cc', 'recbackend.cc']
+    key = hashlib.sha256()
+    for f in sorted(os.listdir(recsolver.RDIR)):
+        key.update(open(os.path.join(recsolver.RDIR, f), 'rb').read())
+    rc, out, err = sh(['git', '-C', REPO, 'rev-parse', 'HEAD'])
+    key.update(out.encode())
+    rc, out, err = sh(['git', '-C', REPO, 'diff', 'HEAD', '--', 'include'])
+    key.update(out.encode())
+    stamp = os.path.join(cdir, 'stamp-' + key.hexdigest()[:16])
+    exe = os.path.join(cdir, 'recsolver_cov')
+    if not (os.path.exists(stamp) and os.path.exists(exe)):
+        for f in os.listdir(cdir):
+            os.remove(os.path.join(cdir, f))
+        from concurrent.futures import ThreadPoolExecutor
+
+        def one(s_):
+            o = os.path.join(cdir, s_.replace('.cc', '.o'))
+            rc, out, err = sh(['g++', '-std=c++17', '-w', '-O0', '-g', '--coverage'] + defs + inc + ['-c', os.path.join(recsolver.RDIR, s_), '-o', o], timeout=3000, cwd=cdir)
+            if rc != 0:
+                raise RuntimeError('coverage compile failed: ' + err[-2000:])
+            return o
+        with ThreadPoolExecutor(max_workers=4) as ex:
+            objs = list(ex.map(one, srcs))
+        rc, out, err = sh(['g++', '--coverage'] + objs + ck.libmp_objects() + ['-o', exe, '-ldl'], timeout=1800)
+        if rc != 0:
+            raise RuntimeError('coverage link failed: ' + err[-2000:])
+        open(stamp, 'w').write('')
+    for f in os.listdir(cdir):
+        if f.endswith('.gcda'):
+            os.remove(os.path.join(cdir, f))
+    return exe, cdir
+
+
+def coverage_report(ck, cdir, label):
+    """gcov -b -c (json) on the four TUs; merge per (file, line); write design_notes/coverage/C04.md and coverage/C04.json"""
+    import gzip
+    lines = {}      # file -> line -> count
+    branches = {}   # file -> line -> [counts]
+    funcs = {}      # file -> (name, start, end) -> count
+    for tu in ('recmodelmgr', 'recbackend', 'recmodelapi', 'recmain'):
+        if not os.path.exists(os.path.join(cdir, tu + '.gcda')):
+            continue
+        rc, out, err = sh(['gcov-12', '-b', '-c', '-m', '--json-format', tu + '.gcda'], cwd=cdir, timeout=1800)
+        jf = os.path.join(cdir, tu + '.gcda.gcov.json.gz')
+        if not os.path.exists(jf):
+            jf = os.path.join(cdir, tu + '.gcov.json.gz')
+        data = json.load(gzip.open(jf))
+        for fobj in data['files']:
+            fn = os.path.normpath(fobj['file'] if os.path.isabs(fobj['file']) else os.path.join(cdir, fobj['file']))
+            rel = None
+            for a in ANCHOR_FILES:
+                if fn.endswith(a):
+                    rel = a
+            if rel is None:
+                continue
+            L = lines.setdefault(rel, {})
+            B = branches.setdefault(rel, {})
+            for ln in fobj['lines']:
+                n = ln['line_number']
+                L[n] = L.get(n, 0) + ln['count']
+                if ln.get('branches'):
+                    cur = B.get(n)
+                    bc = [b['count'] for b in ln['branches'] if not b.get('throw')]     # exception edges of calls are not decisions
+                    if not bc:
+                        continue
+                    if cur is None or len(cur) != len(bc):
+                        if cur is None or sum(1 for x in bc if x) > sum(1 for x in cur if x):
+                            B[n] = bc
+                    else:
+                        B[n] = [a_ + b_ for a_, b_ in zip(cur, bc)]
+            Fm = funcs.setdefault(rel, {})
+            for fu in fobj['functions']:
+                k = (fu.get('demangled_name') or fu['name'], fu['start_line'], fu['end_line'])
+                Fm[k] = Fm.get(k, 0) + fu['execution_count']
+    summary = {'label': label, 'files': {}}
+    tot_l = tot_lc = tot_b = tot_bc = 0
+    md = ['# C04 coverage of the anchored code (%s)\n' % label,
+          'Stream: the quick-tier input stream of `checks/c04.py` (corpus + 120 generated cases, two real runs each) on a `--coverage -O0` build of',
+          'the recording driver; `gcov-12 -b -c` per TU, merged per (file, line) over the TUs and template instantiations; exception edges (`throw` branches of calls) are not counted as branches.\n',
+          '| file | lines | line cov | branches | branch cov |', '|---|---|---|---|---|']
+    for a in ANCHOR_FILES:
+        L, B = lines.get(a, {}), branches.get(a, {})
+        nl, nlc = len(L), sum(1 for v in L.values() if v)
+        nb, nbc = sum(len(v) for v in B.values()), sum(1 for v in B.values() for x in v if x)
+        tot_l += nl; tot_lc += nlc; tot_b += nb; tot_bc += nbc
+        summary['files'][a] = {'lines': nl, 'lines_covered': nlc, 'branches': nb, 'branches_covered': nbc}
+        md.append('| %s | %d | %s | %d | %s |' % (a, nl, '%.1f%%' % (100.0 * nlc / nl) if nl else 'n/a', nb, '%.1f%%' % (100.0 * nbc / nb) if nb else 'n/a'))
+    summary['anchor_line_cov'] = round(100.0 * tot_lc / max(1, tot_l), 1)
+    summary['anchor_branch_cov'] = round(100.0 * tot_bc / max(1, tot_b), 1)
+    md.append('| **all anchored files** | %d | **%.1f%%** | %d | **%.1f%%** |\n' % (tot_l, summary['anchor_line_cov'], tot_b, summary['anchor_branch_cov']))
+    # mechanism functions
+    md.append('## Uncovered functions / lines / branches inside the mechanism code\n')
+    mech_l = mech_lc = mech_b = mech_bc = 0
+    for a in ANCHOR_FILES:
+        src = open(os.path.join(REPO, a), errors='replace').read().split('\n')
+        full = any(a.endswith(m) for m in MECH_FILES_FULL)
+        L, B = lines.get(a, {}), branches.get(a, {})
+        ranges = {}
+        for (name, s_, e_), cnt in funcs.get(a, {}).items():
+            if full or any(m in name for m in MECH_FUNCS):
+                r = ranges.setdefault((s_, e_), [name, 0])
+                r[1] += cnt
+        if not ranges:
+            continue
+        md.append('### %s\n' % a)
+        seen = set()
+        for (s_, e_), (name, cnt) in sorted(ranges.items()):
+            short = name if len(name) < 150 else name[:150] + '…'
+            fl = [n for n in L if s_ <= n <= e_ and n not in seen]
+            seen.update(fl)
+            unc = [n for n in fl if not L[n]]
+            ub = [(n, [i for i, x in enumerate(B[n]) if not x]) for n in sorted(B) if s_ <= n <= e_ and any(not x for x in B[n])]
+            mech_l += len(fl); mech_lc += len(fl) - len(unc)
+            mech_b += sum(len(B[n]) for n in B if s_ <= n <= e_); mech_bc += sum(1 for n in B if s_ <= n <= e_ for x in B[n] if x)
+            if cnt == 0:
+                md.append('* **never called** `%s` (lines %d-%d)' % (short, s_, e_))
+            elif unc or ub:
+                md.append('* `%s` (lines %d-%d): uncovered lines %s; lines with an untaken branch outcome %s' % (short, s_, e_, unc or '-', [n for n, _ in ub] or '-'))
+                for n in unc[:6]:
+                    md.append('    - %d: `%s`' % (n, src[n - 1].strip()[:110]))
+        md.append('')
+    summary['mechanism_line_cov'] = round(100.0 * mech_lc / max(1, mech_l), 1)
+    summary['mechanism_branch_cov'] = round(100.0 * mech_bc / max(1, mech_b), 1)
+    md.insert(8 + len(ANCHOR_FILES), 'Mechanism code only (functions of `anchors.mechanism` + the whole of valcvt*.h, range_con.h, backend_flat.h): line **%.1f%%**, branch **%.1f%%**.\n'
+              % (summary['mechanism_line_cov'], summary['mechanism_branch_cov']))
+    os.makedirs(os.path.join(VERIF, 'design_notes', 'coverage'), exist_ok=True)
+    open(os.path.join(VERIF, 'design_notes', 'coverage', 'C04-%s.md' % label), 'w').write('\n'.join(md) + '\n')
+    json.dump(summary, open(os.path.join(VERIF, 'design_notes', 'coverage', 'C04-%s.json' % label), 'w'), indent=1)
+    ck.log('coverage (%s): anchored files line %.1f%% branch %.1f%%; mechanism code line %.1f%% branch %.1f%%' %
+           (label, summary['anchor_line_cov'], summary['anchor_branch_cov'], summary['mechanism_line_cov'], summary['mechanism_branch_cov']))
+    return summary
